@@ -411,7 +411,7 @@ fn run_case<H: HashAlgorithm>(case: &Case, scratch: &Path, out: &mut dyn Write) 
             continue;
         }
         ops.sort();
-        let malform = if u % 4 == 3 { rng.below(4) + 1 } else { 0 };
+        let malform = if u % 3 == 2 { rng.below(5) + 1 } else { 0 };
         // group by terminal path
         let mut groups: BTreeMap<Vec<u8>, (TProof, Vec<u8>, Vec<(Vec<u8>, Option<String>)>)> = BTreeMap::new();
         for (k, v) in &ops {
@@ -437,6 +437,17 @@ fn run_case<H: HashAlgorithm>(case: &Case, scratch: &Path, out: &mut dyn Write) 
             }
             4 => {
                 ups[0].2.clear();
+            }
+            5 => {
+                // the same key twice in a row
+                if let Some(g) = ups.iter_mut().find(|g| !g.2.is_empty()) {
+                    let mut d = g.2[0].clone();
+                    if d.1.is_none() {
+                        d.1 = Some(case.vals[0].clone());
+                        g.2[0].1 = Some(case.vals[0].clone());
+                    }
+                    g.2.insert(1, d);
+                }
             }
             _ => {}
         }
@@ -631,6 +642,32 @@ fn multi_record<H: HashAlgorithm>(
                     }
                 }
                 ops.sort();
+                // sometimes a malformed operation list: unsorted, duplicated key, or a key out of scope
+                let umal = if rng.chance(1, 4) && !ops.is_empty() { 1 + rng.below(3) } else { 0 };
+                if umal != 0 {
+                    let mut mops = ops.clone();
+                    match umal {
+                        1 if mops.len() > 1 => mops.swap(0, 1),
+                        2 => {
+                            let mut d = mops[0].clone();
+                            d.1 = Some(case.vals[0].clone());
+                            mops[0].1 = Some(case.vals[0].clone());
+                            mops.insert(1, d);
+                        }
+                        _ => {
+                            if let Some(q) = case.universe.iter().find(|q| v.find_index_for(&sp.real_key(q)).is_err()) {
+                                mops.push((q.clone(), Some(case.vals[0].clone())));
+                                mops.sort();
+                            }
+                        }
+                    }
+                    if mops != ops {
+                        let real_mops: Vec<(Key, Option<[u8; 32]>)> = mops.iter()
+                            .map(|(k, v)| (sp.real_key(k), v.as_ref().map(|v| H::hash_value(&sp.value_bytes(k, v))))).collect();
+                        let r = catch_unwind(AssertUnwindSafe(|| proof::verify_multi_proof_update::<H>(&v, real_mops)));
+                        rec["updBad"] = json!({"kind": umal, "res": match r { Err(_) => "PANIC".to_string(), Ok(Err(e)) => format!("{e:?}"), Ok(Ok(_)) => "Ok".to_string() }});
+                    }
+                }
                 if !ops.is_empty() {
                     let real_ops: Vec<(Key, Option<[u8; 32]>)> = ops.iter()
                         .map(|(k, v)| (sp.real_key(k), v.as_ref().map(|v| H::hash_value(&sp.value_bytes(k, v))))).collect();
